@@ -6,6 +6,7 @@ import LolHtml.Ref.Tags
 import LolHtml.Lemmas.NameHash
 import LolHtml.Lemmas.Guard
 import LolHtml.Lemmas.Sim
+import LolHtml.Lemmas.Island
 /-!
 # C03 — name hashes, ambiguity guard, tree-builder simulator
 
@@ -432,5 +433,125 @@ theorem C03_sim_strict_eq_nonstrict (cfg : TagCfg) (evs : List TagEvent)
     (h : (Sim.run cfg (Sim.new true) evs).2 = none) :
     Sim.run cfg (Sim.new false) evs = ((Sim.run cfg (Sim.new true) evs).1.map eraseR, none) :=
   Lemmas.Sim.run_erase cfg evs (Sim.new true) h
+
+
+/-! ## 5. Well-nested foreign content
+
+`Spec.Island` (Spec/Island.lean) is the grammar; `Island.flat` lists the tags of a derivation, each
+with the namespace expected after it. -/
+
+open LolHtml.Spec.Island (Island FSeq HSeq FNs startEv endEv)
+open LolHtml.Lemmas.Island (lastState)
+
+/-- namespaces after each tag of a run -/
+def nsTrace (cfg : TagCfg) (s : Sim) (evs : List TagEvent) : List Ns :=
+  (Sim.run cfg s evs).1.map (·.1.currentNs)
+
+/-- **Foreign-content grammar theorem.** For any tables with `svg ≠ math`, any well-formed island
+and any HTML-namespace state `s` of the non-strict simulator satisfying the invariant (e.g. the
+initial state, or the state inside an integration point of an enclosing island): running the
+simulator — `RequestLexeme` callbacks applied at once — over the island's tag sequence raises no
+error, is in the expected namespace after **every** tag, and ends in exactly the state `s` it
+started from (so: back in `Html`, stack restored). -/
+theorem C03_foreign_grammar (cfg : TagCfg) (hsm : cfg.svg ≠ cfg.math) (i : Island) (hok : i.Ok cfg)
+    (s : Sim) (hinv : Inv s) (hns : s.strict = false) (hhtml : s.currentNs = .html) :
+    (Sim.run cfg s (i.flat.map (·.1))).2 = none ∧
+    nsTrace cfg s (i.flat.map (·.1)) = i.flat.map (·.2) ∧
+    lastState s (Sim.run cfg s (i.flat.map (·.1))).1 = s :=
+  Lemmas.Island.steps_run (Lemmas.Island.island_steps cfg hsm i hok s hinv hns hhtml)
+
+/-- The same for the strict simulator, as long as the guard does not refuse a tag: same namespaces
+(the guard state is the only thing that differs). -/
+theorem C03_foreign_grammar_strict (cfg : TagCfg) (hsm : cfg.svg ≠ cfg.math) (i : Island)
+    (hok : i.Ok cfg) (s : Sim) (hinv : Inv s) (hhtml : s.currentNs = .html)
+    (hacc : (Sim.run cfg s (i.flat.map (·.1))).2 = none) :
+    nsTrace cfg s (i.flat.map (·.1)) = i.flat.map (·.2) := by
+  have he := Lemmas.Sim.run_erase cfg (i.flat.map (·.1)) s hacc
+  have := (C03_foreign_grammar cfg hsm i hok (erase s) ⟨hinv.top, hinv.bottom⟩ rfl hhtml).2.1
+  unfold nsTrace at this ⊢
+  rw [he] at this
+  simpa [List.map_map, Function.comp_def, eraseR, erase] using this
+
+/-- **Whole documents of the claimed domain**: arbitrary HTML-namespace tag soup (any tags but
+`<svg>`/`<math>` start tags) interleaved with well-formed islands. From the initial state the
+non-strict simulator accepts every tag, is in `Html` after every soup tag and in the expected
+namespace after every island tag, and is back in its initial state at the end. -/
+theorem C03_foreign_doc (cfg : TagCfg) (hsm : cfg.svg ≠ cfg.math) (d : List Spec.Island.DocItem)
+    (hok : ∀ x ∈ d, x.Ok cfg) :
+    let evs := (Spec.Island.docFlat d).map (·.1)
+    (Sim.run cfg (Sim.new false) evs).2 = none ∧
+    nsTrace cfg (Sim.new false) evs = (Spec.Island.docFlat d).map (·.2) ∧
+    lastState (Sim.new false) (Sim.run cfg (Sim.new false) evs).1 = Sim.new false :=
+  Lemmas.Island.steps_run (Lemmas.Island.doc_steps cfg hsm d hok)
+
+/-- side condition on the translated tables -/
+theorem C03_svg_ne_math_gen : Gen.Tags.cfg.svg ≠ Gen.Tags.cfg.math := by decide +kernel
+
+/-- Non-vacuity: the island
+`<svg><g><circle/></g><desc><b></b><math><mi><i></i></mi><annotation-xml encoding="text/html"><p></p></annotation-xml></math></desc><title></title></svg>`
+is well-formed for the translated tables, and its expected namespaces are as listed. -/
+def exampleIsland : Island :=
+  { ns := .svg, name := [115, 118, 103], attrs := [],
+    children :=
+      .elem [103] [] (.selfClosing [99, 105, 114, 99, 108, 101] [] .nil) <|
+      .ip [100, 101, 115, 99] []
+        (.elem [98] [] .nil <|
+         .island .mathml [109, 97, 116, 104] []
+           (.ip [109, 105] [] (.elem [105] [] .nil .nil) <|
+            .ip bAnnotationXml [(bEncoding, bTextHtml)] (.elem [112] [] .nil .nil) .nil)
+           .nil) <|
+      .ip [116, 105, 116, 108, 101] [] .nil .nil }
+
+theorem exampleIsland_ok : exampleIsland.Ok Gen.Tags.cfg := by
+  simp only [exampleIsland, Island.Ok, FSeq.Ok, HSeq.Ok, Spec.Island.PlainStart, Spec.Island.NotIP,
+    Spec.Island.PlainEnd, Spec.Island.IsIP, Spec.Island.HtmlStart, Spec.Island.HtmlEnd]
+  repeat' apply And.intro
+  all_goals decide +kernel
+
+example :
+    nsTrace Gen.Tags.cfg (Sim.new false) (exampleIsland.flat.map (·.1)) =
+      [.svg, .svg, .svg, .svg, .html, .html, .html, .mathml, .html, .html, .html, .mathml, .html,
+        .html, .html, .mathml, .html, .svg, .html, .svg, .html] := by
+  rw [(C03_foreign_grammar Gen.Tags.cfg C03_svg_ne_math_gen exampleIsland exampleIsland_ok
+    (Sim.new false) (Lemmas.Sim.inv_new false) rfl rfl).2.1]
+  decide +kernel
+
+/-! ### Why the side conditions of the grammar are there: deviations of the simulator from WHATWG -/
+
+/-- svg / math / desc / title / mi / textarea -/
+def nSvg : Bytes := [115, 118, 103]
+def nMath : Bytes := [109, 97, 116, 104]
+def nDesc : Bytes := [100, 101, 115, 99]
+def nTitle : Bytes := [116, 105, 116, 108, 101]
+def nMi : Bytes := [109, 105]
+
+/-- **F2 (known)**: a self-closing root `<svg/>` still enters the SVG namespace — WHATWG pops the
+element at once, the namespace stays `Html`. Hence the grammar demands an explicitly closed root. -/
+theorem C03_foreign_selfclosing_root_counterexample :
+    nsTrace Gen.Tags.cfg (Sim.new false) [startEv nSvg [] true] = [.svg] := by
+  decide +kernel
+
+/-- **F10**: `<svg><math><mi>` — the simulator switches to MathML on *any* `math` start tag and then
+takes `mi` for a MathML text integration point (namespaces svg, mathml, html). For WHATWG a `math`
+start tag in SVG content is just an SVG-namespace element (§13.2.6.5 "any other start tag"), and so
+is `mi`: svg, svg, svg. Hence foreign elements of the grammar are not named `svg`/`math`.
+On the real code: `<svg><math><mi><textarea><b>x</b>` reports `<b>x</b>` as text, while
+html5ever builds an element `b`. -/
+theorem C03_foreign_cross_ns_counterexample :
+    nsTrace Gen.Tags.cfg (Sim.new false) [startEv nSvg [] false, startEv nMath [] false, startEv nMi [] false]
+      = [.svg, .mathml, .html] := by
+  decide +kernel
+
+/-- **F11**: `<svg><desc><title></title>` — inside the integration point `desc` the HTML element
+`title` is closed by `</title>`; the simulator takes that end tag for the end of an SVG `title`
+integration point and falls back to SVG (svg, html, html, **svg**), while the tree builder is still
+inside `desc` (svg, html, html, html). Hence `HtmlEnd` in the grammar.
+On the real code: `<svg><desc><title>a</title><textarea><b>x</b>` reports an element `b`, while
+html5ever has the text `<b>x</b>` inside an HTML `textarea`. -/
+theorem C03_foreign_ip_name_counterexample :
+    nsTrace Gen.Tags.cfg (Sim.new false)
+      [startEv nSvg [] false, startEv nDesc [] false, startEv nTitle [] false, endEv nTitle]
+      = [.svg, .html, .html, .svg] := by
+  decide +kernel
 
 end LolHtml.Thm.C03
